@@ -1,1 +1,420 @@
-fn main() {}
+//! C14 / C15: HTML sanitizer checks (ruma-html), with html5gum as an independent view of the output.
+use html5gum::{Token, Tokenizer};
+use proptest::prelude::*;
+use ruma_html::{remove_html_reply_fallback, sanitize_html, Html, HtmlSanitizerMode, RemoveReplyFallback};
+use serde::{Deserialize, Serialize};
+use vf_engine::{CaseCtx, Check};
+
+mod gen;
+mod policy;
+
+use gen::Node;
+use policy::{Policy, RNode, B};
+
+#[derive(Serialize, Deserialize, Debug, Clone)]
+pub struct SanCase {
+    pub doc: Vec<Node>,
+    pub config: B,
+}
+
+fn count_elems(t: &[RNode]) -> usize {
+    t.iter().map(|n| match n {
+        RNode::Elem { children, .. } => 1 + count_elems(children),
+        _ => 0,
+    }).sum()
+}
+
+fn tree_depth(t: &[RNode]) -> usize {
+    t.iter().map(|n| match n {
+        RNode::Elem { children, .. } => 1 + tree_depth(children),
+        _ => 0,
+    }).max().unwrap_or(0)
+}
+
+fn first_diff(a: &[RNode], b: &[RNode], path: &str) -> Option<String> {
+    for i in 0..a.len().max(b.len()) {
+        match (a.get(i), b.get(i)) {
+            (Some(x), Some(y)) if x == y => {}
+            (Some(RNode::Elem { name: n1, attrs: a1, children: c1 }), Some(RNode::Elem { name: n2, attrs: a2, children: c2 })) => {
+                if n1 != n2 {
+                    return Some(format!("at {path}/{i}: sanitizer has <{n1}>, policy gives <{n2}>"));
+                }
+                if a1 != a2 {
+                    return Some(format!("at {path}/{i} <{n1}>: sanitizer keeps attributes {a1:?}, policy gives {a2:?}"));
+                }
+                return first_diff(c1, c2, &format!("{path}/{i}:{n1}"));
+            }
+            (x, y) => return Some(format!("at {path}/{i}: sanitizer has {}, policy gives {}", brief(x), brief(y))),
+        }
+    }
+    None
+}
+
+fn brief(n: Option<&RNode>) -> String {
+    match n {
+        None => "nothing".into(),
+        Some(RNode::Text(t)) => format!("text {:?}", t.chars().take(40).collect::<String>()),
+        Some(RNode::Elem { name, attrs, .. }) => format!("<{name} {attrs:?}>"),
+    }
+}
+
+/// Predicates on a token-level view of the output (html5gum, independent of html5ever).
+fn token_view(out: &str, p: &Policy, cx: &mut CaseCtx) -> Result<(), String> {
+    const VOID: &[&str] = &["br", "hr", "img", "input", "link", "meta", "base", "area", "col", "embed", "param", "source", "track", "wbr"];
+    let mut depth: usize = 0;
+    let mut max_depth = 0;
+    for tok in Tokenizer::new(out) {
+        let Ok(tok) = tok;
+        match tok {
+            Token::StartTag(t) => {
+                let name = String::from_utf8_lossy(&t.name).to_string();
+                if p.element_removed(&name) {
+                    return Err(format!("output contains removed element <{name}>: {}", clip(out)));
+                }
+                if p.element_ignored(&name) {
+                    return Err(format!("output, as tokenised by an independent HTML tokenizer, contains <{name}> which is not allowed: {}", clip(out)));
+                }
+                for (k, v) in &t.attributes {
+                    let (k, v) = (String::from_utf8_lossy(k).to_string(), String::from_utf8_lossy(v).to_string());
+                    if !p.attr_kept(&name, &k) {
+                        if k.contains(':') {
+                            cx.class("foreign_prefixed_attribute_in_output");
+                        }
+                        return Err(format!("output <{name}> carries attribute {k:?} which is not allowed for it: {}", clip(out)));
+                    }
+                    if p.scheme_allowed(&name, &k, &v) == Some(false) {
+                        return Err(format!("output <{name} {k}={v:?}> has a URI scheme that is not allowed: {}", clip(out)));
+                    }
+                    if k == "class" && p.filter_classes(&name, &v).as_deref() != Some(v.as_str()) {
+                        return Err(format!("output <{name} class={v:?}> has a class that is not allowed: {}", clip(out)));
+                    }
+                }
+                if !t.self_closing && !VOID.contains(&name.as_str()) {
+                    depth += 1;
+                    max_depth = max_depth.max(depth);
+                } else {
+                    max_depth = max_depth.max(depth + 1);
+                }
+            }
+            Token::EndTag(_) => depth = depth.saturating_sub(1),
+            Token::Comment(_) => return Err(format!("output contains a comment: {}", clip(out))),
+            Token::Doctype(_) => return Err(format!("output contains a doctype: {}", clip(out))),
+            _ => {}
+        }
+    }
+    if let Some(m) = p.max_depth {
+        if max_depth > m as usize {
+            return Err(format!("output nests {max_depth} levels deep, limit {m}"));
+        }
+    }
+    Ok(())
+}
+
+fn clip(s: &str) -> String {
+    s.chars().take(300).collect()
+}
+
+/// Raw-text / foreign constructs make a token-level reading of the output ambiguous when they
+/// are allowed (configs without a mode); the token view is only applied when none can survive.
+fn token_view_applicable(p: &Policy) -> bool {
+    ["script", "style", "xmp", "iframe", "noembed", "noframes", "plaintext", "textarea", "title", "noscript", "svg", "math", "template"].iter().all(|e| p.element_ignored(e) || p.element_removed(e))
+}
+
+fn run_case(html_in: &str, b: &B, cx: &mut CaseCtx) -> Result<String, String> {
+    let p = Policy::of(b);
+    let config = policy::to_config(b);
+    let parsed = Html::parse(html_in);
+    let expected = policy::reference_clean(&parsed, &p);
+    // sanitize a fresh parse (the reference walked `parsed` read-only)
+    let html = Html::parse(html_in);
+    html.sanitize_with(&config);
+    if policy::has_other_nodes(&html) {
+        return Err(format!("sanitized document still contains a node that is neither element nor text (comment / processing instruction); input {}", clip(html_in)));
+    }
+    let got = policy::dom(&html);
+    if got != expected {
+        let d = first_diff(&got, &expected, "").unwrap_or_else(|| "trees differ".into());
+        return Err(format!("sanitized tree differs from what the configuration prescribes: {d}; config {b:?}; input {}", clip(html_in)));
+    }
+    let out = html.to_string();
+    // helper functions agree with the builder for the plain modes
+    if b.is_plain_mode() {
+        let mode = if b.mode == 1 { HtmlSanitizerMode::Strict } else { HtmlSanitizerMode::Compat };
+        let rr = if b.remove_reply_fallback { RemoveReplyFallback::Yes } else { RemoveReplyFallback::No };
+        let via_helper = sanitize_html(html_in, mode, rr);
+        if via_helper != out {
+            return Err(format!("sanitize_html differs from sanitize_with for the same mode: {} vs {}", clip(&via_helper), clip(&out)));
+        }
+    }
+    if token_view_applicable(&p) {
+        cx.class("token_view_applied");
+        token_view(&out, &p, cx)?;
+        // cross-view: what a parser sees when reading the output again
+        let re = Html::parse(&out);
+        // Elements the HTML parser creates by itself (`tbody`, `tr` around a stray `td`, ...) can
+        // only be outside the allow-list when a builder configuration splits the table family;
+        // that is the configuration's doing, so element names are checked in this view only when
+        // the element lists are the mode's own.
+        let check_elems = b.allow_elements.is_none() && b.ignore_elements.is_none() && b.remove_elements.is_none();
+        fn walk(t: &[RNode], p: &Policy, out: &str, check_elems: bool) -> Result<(), String> {
+            for n in t {
+                if let RNode::Elem { name, attrs, children } = n {
+                    if check_elems && (p.element_removed(name) || p.element_ignored(name)) {
+                        return Err(format!("re-parsed output contains <{name}> which is not allowed: {}", clip(out)));
+                    }
+                    for (k, v) in attrs {
+                        if !p.attr_kept(name, k) {
+                            return Err(format!("re-parsed output <{name}> carries attribute {k:?} which is not allowed: {}", clip(out)));
+                        }
+                        if p.scheme_allowed(name, k, v) == Some(false) {
+                            return Err(format!("re-parsed output <{name} {k}={v:?}> has a scheme that is not allowed: {}", clip(out)));
+                        }
+                    }
+                    walk(children, p, out, check_elems)?;
+                }
+            }
+            Ok(())
+        }
+        walk(&policy::dom(&re), &p, &out, check_elems)?;
+    }
+    // classification
+    let before = policy::dom(&parsed);
+    let (nb, na) = (count_elems(&before), count_elems(&got));
+    cx.class_if(nb > na, "something_removed");
+    cx.class_if(na > 0, "something_kept");
+    cx.class_if(tree_depth(&before) > 100, "depth_gt_100");
+    cx.class_if(html_in.contains("xlink:") || html_in.contains("<svg") || html_in.contains("<math"), "foreign_ns");
+    cx.class_if(html_in.contains("<font") || html_in.contains("<strike"), "deprecated");
+    cx.class_if(b.allow_elements.as_ref().is_some_and(|x| x.1) || b.allow_attrs.as_ref().is_some_and(|x| x.1), "builder_override");
+    cx.class_if(b.allow_elements.as_ref().is_some_and(|x| !x.1) || b.allow_attrs.as_ref().is_some_and(|x| !x.1), "builder_add");
+    cx.class_if(b.mode == 0, "no_mode");
+    cx.class_if(html_in.contains("mx-reply") && b.remove_reply_fallback, "reply_fallback_removed");
+    cx.nontrivial_if(nb > na && na > 0);
+    Ok(out)
+}
+
+fn c14_oracle(c: &SanCase, cx: &mut CaseCtx) -> Result<(), String> {
+    let html_in = gen::to_html(&c.doc);
+    run_case(&html_in, &c.config, cx).map(|_| ())
+}
+
+/// Attribute-order sub-space: a URI attribute accompanied by every other attribute, so that names
+/// sorting before and after `href` / `src` both occur.
+#[derive(Serialize, Deserialize, Debug, Clone)]
+pub struct AttrOrderCase {
+    pub elem: String,
+    pub uri_attr: String,
+    pub uri: String,
+    pub other: Vec<(String, String)>,
+    pub strict: bool,
+}
+
+fn attr_order_oracle(c: &AttrOrderCase, cx: &mut CaseCtx) -> Result<(), String> {
+    let mut attrs = c.other.clone();
+    attrs.push((c.uri_attr.clone(), c.uri.clone()));
+    // written in the given order and in reverse
+    for rev in [false, true] {
+        let mut a = attrs.clone();
+        if rev {
+            a.reverse();
+        }
+        let doc = vec![Node::Elem { name: c.elem.clone(), attrs: a, children: vec![Node::Text("x".into())], close: 0 }];
+        let html_in = gen::to_html(&doc);
+        cx.class("uri_attr_with_companions");
+        cx.class_if(c.other.iter().any(|(k, _)| k.as_str() < c.uri_attr.as_str()), "uri_attr_not_first_in_sort_order");
+        cx.nontrivial();
+        run_case(&html_in, &B::helper(c.strict, true), cx)?;
+        cx.more_evals(1);
+    }
+    Ok(())
+}
+
+fn attr_order_space(shard: u64, n: u64) -> impl Iterator<Item = AttrOrderCase> {
+    let mut all = vec![];
+    let companions: Vec<(String, String)> = ["alt", "class", "aaa", "target", "title", "width", "zzz", "id", "onclick"].iter().map(|k| ((*k).to_owned(), "v".to_owned())).collect();
+    for (elem, uri_attr) in [("a", "href"), ("img", "src")] {
+        for uri in gen::URI_VALUES {
+            for strict in [true, false] {
+                // no companion, each single companion, and each pair
+                all.push(AttrOrderCase { elem: elem.into(), uri_attr: uri_attr.into(), uri: (*uri).into(), other: vec![], strict });
+                for (i, c1) in companions.iter().enumerate() {
+                    all.push(AttrOrderCase { elem: elem.into(), uri_attr: uri_attr.into(), uri: (*uri).into(), other: vec![c1.clone()], strict });
+                    for c2 in companions.iter().skip(i + 1) {
+                        all.push(AttrOrderCase { elem: elem.into(), uri_attr: uri_attr.into(), uri: (*uri).into(), other: vec![c1.clone(), c2.clone()], strict });
+                    }
+                }
+            }
+        }
+    }
+    all.into_iter().skip(shard as usize).step_by(n as usize)
+}
+
+// ---------------------------------------------------------------------------------------------
+// C15
+
+fn reserialize(s: &str) -> String {
+    Html::parse(s).to_string()
+}
+
+fn sanitize_with_b(s: &str, b: &B) -> String {
+    let html = Html::parse(s);
+    html.sanitize_with(&policy::to_config(b));
+    html.to_string()
+}
+
+fn c15_idempotence(c: &SanCase, cx: &mut CaseCtx) -> Result<(), String> {
+    let html_in = gen::to_html(&c.doc);
+    let b = &c.config;
+    let config = policy::to_config(b);
+    let html = Html::parse(&html_in);
+    html.sanitize_with(&config);
+    let out = html.to_string();
+    // twice on the same document object equals once
+    html.sanitize_with(&config);
+    let out_twice_same_object = html.to_string();
+    if out_twice_same_object != out {
+        return Err(format!("sanitizing the same document object twice differs from once: {} vs {}; config {b:?}", clip(&out), clip(&out_twice_same_object)));
+    }
+    // sanitizing the output removes and rewrites nothing
+    let again = sanitize_with_b(&out, b);
+    let plain = reserialize(&out);
+    if again != plain {
+        return Err(format!("sanitizing already-sanitized output changes it: output {} -> re-sanitized {} (plain re-serialisation {}); config {b:?}; input {}", clip(&out), clip(&again), clip(&plain), clip(&html_in)));
+    }
+    let changed = out != reserialize(&html_in);
+    cx.class_if(changed, "first_pass_changed_something");
+    cx.nontrivial_if(changed);
+    Ok(())
+}
+
+#[derive(Serialize, Deserialize, Debug, Clone)]
+pub struct CleanCase {
+    pub doc: String,
+    pub strict: bool,
+    pub remove_reply: bool,
+}
+
+fn c15_clean(c: &CleanCase, cx: &mut CaseCtx) -> Result<(), String> {
+    let d = &c.doc;
+    if reserialize(d) != *d {
+        // the generator aims at parser-normal documents; a miss is a generator matter, counted
+        cx.class("generator_not_parser_normal");
+        return Ok(());
+    }
+    let mode = if c.strict { HtmlSanitizerMode::Strict } else { HtmlSanitizerMode::Compat };
+    let rr = if c.remove_reply { RemoveReplyFallback::Yes } else { RemoveReplyFallback::No };
+    let out = sanitize_html(d, mode, rr);
+    cx.class("clean_document");
+    let elems = d.matches('<').count() / 2;
+    cx.class_if(d.contains("mx-reply"), "with_reply_fallback_kept");
+    cx.class_if(d.contains("<table"), "with_table");
+    cx.class_if(d.matches("<div>").count() > 30, "deep_but_within_limit");
+    cx.nontrivial_if(elems >= 3 && d.contains("=\""));
+    if out != *d {
+        let i = out.bytes().zip(d.bytes()).position(|(a, b)| a != b).unwrap_or(out.len().min(d.len()));
+        let from = i.saturating_sub(40);
+        return Err(format!(
+            "an already-clean document was changed by sanitization ({:?}, remove reply fallback {}): around byte {i}: input ...{} output ...{}",
+            mode,
+            c.remove_reply,
+            d.get(from..).map(clip).unwrap_or_default(),
+            out.get(from..).map(clip).unwrap_or_default()
+        ));
+    }
+    if !c.remove_reply {
+        // removing only the reply fallback from a document without one changes nothing either
+        if !d.contains("mx-reply") && remove_html_reply_fallback(d) != *d {
+            return Err("remove_html_reply_fallback changed a document without reply fallback".into());
+        }
+    }
+    Ok(())
+}
+
+#[derive(Serialize, Deserialize, Debug, Clone)]
+pub struct DeprecatedCase {
+    pub input: String,
+    pub expected: String,
+    pub strict: bool,
+}
+
+fn c15_deprecated(c: &DeprecatedCase, cx: &mut CaseCtx) -> Result<(), String> {
+    if reserialize(&c.expected) != c.expected {
+        cx.class("generator_not_parser_normal");
+        return Ok(());
+    }
+    let mode = if c.strict { HtmlSanitizerMode::Strict } else { HtmlSanitizerMode::Compat };
+    let out = sanitize_html(&c.input, mode, RemoveReplyFallback::No);
+    cx.class("deprecated_document");
+    cx.nontrivial();
+    if out != c.expected {
+        return Err(format!("deprecated constructs not rewritten to their documented replacements: input {} gives {}, expected {}", clip(&c.input), clip(&out), clip(&c.expected)));
+    }
+    Ok(())
+}
+
+fn san_case(builder_share: u32) -> impl Strategy<Value = SanCase> {
+    let helper = (any::<bool>(), any::<bool>()).prop_map(|(s, r)| B::helper(s, r));
+    let config = prop_oneof![(10 - builder_share) => helper.boxed(), builder_share => policy::builder_config().boxed()];
+    (gen::nodes(4), config).prop_map(|(doc, config)| SanCase { doc, config })
+}
+
+fn main() {
+    let args: Vec<String> = std::env::args().skip(1).collect();
+    let id = args.first().cloned().unwrap_or_default();
+    let mut ck = Check::from_env(&id, &args[1.min(args.len())..]);
+    match id.as_str() {
+        "C14" => {
+            ck.rule(
+                "G1: HTML generated from a grammar over allowed, deprecated, forbidden and foreign elements, attributes in arbitrary number and order (URI attributes with every scheme spelling, classes, event handlers, namespaced and upper-case names), comments / doctype / CDATA / PIs, mx-reply, malformed markup, nesting up to 320 levels; \
+                 configurations: strict / compat x reply-fallback removal, and builder configurations (mode x allow/remove/ignore elements, allow/remove attributes, allow/deny schemes, allow/remove classes, max depth; add and override). \
+                 G2: every URI value x {a/href, img/src} x every 0-2 companion attributes in both orders. \
+                 Oracle: the sanitized DOM must equal a reference cleaner driven by a policy derived independently from the configuration data; the serialised output is tokenised with html5gum and re-parsed, and both views are checked against the policy. \
+                 Non-trivial = input with something that must be removed and something that must stay.",
+            );
+            ck.assume("element depth is counted in the input tree (an ignored element's children count one level deeper), as the sanitizer documents");
+            ck.assume("token-level view applied only when no raw-text or foreign-content element may survive (always in strict/compat mode without element additions)");
+            ck.exhaustive("uri_attribute_companions", true, attr_order_space, attr_order_oracle);
+            let n = ck.n(40_000, 2_000_000);
+            ck.prop("modes", n, || san_case(0), c14_oracle);
+            let n = ck.n(30_000, 1_500_000);
+            ck.prop("builder_configs", n, || san_case(10), c14_oracle);
+            for cls in ["something_removed", "something_kept", "depth_gt_100", "foreign_ns", "deprecated", "reply_fallback_removed", "token_view_applied"] {
+                ck.floor("modes", cls, 300);
+            }
+            for cls in ["builder_override", "builder_add", "no_mode", "something_removed", "something_kept"] {
+                ck.floor("builder_configs", cls, 300);
+            }
+            ck.floor("uri_attribute_companions", "uri_attr_not_first_in_sort_order", 500);
+        }
+        "C15" => {
+            ck.rule(
+                "G1 (idempotence): the C14 inputs and configurations; sanitize(out) must equal parse-and-reserialise(out), and sanitizing one document object twice must equal once. \
+                 G1 (preservation): documents generated from the allow-list grammar (block/inline/list/table/details skeletons, allowed attributes written in serialisation order, allowed schemes and classes, depth <= 100, optional mx-reply when it is kept) must come back byte-identical in strict and compat mode, with and without reply-fallback removal; \
+                 deprecated-construct documents (font with color and other attributes, strike) must equal the documented rewriting. Non-trivial = clean document with >= 3 elements and an attribute, or an idempotence case whose first pass changed something.",
+            );
+            ck.assume("a generated 'clean' document that is not parser-normal (parse + serialise changes it) is a generator miss: counted, not asserted");
+            let n = ck.n(40_000, 2_000_000);
+            ck.prop("idempotence_modes", n, || san_case(0), c15_idempotence);
+            let n = ck.n(20_000, 1_000_000);
+            ck.prop(
+                "clean_documents_unchanged",
+                n,
+                || (any::<bool>(), any::<bool>()).prop_flat_map(|(strict, remove_reply)| gen::clean_document(!strict, !remove_reply).prop_map(move |doc| CleanCase { doc, strict, remove_reply })),
+                c15_clean,
+            );
+            let n = ck.n(5_000, 200_000);
+            ck.prop("deprecated_rewritten", n, || (gen::deprecated_document(), any::<bool>()).prop_map(|((input, expected), strict)| DeprecatedCase { input, expected, strict }), c15_deprecated);
+            ck.floor("idempotence_modes", "first_pass_changed_something", 5000);
+            ck.floor("clean_documents_unchanged", "clean_document", 10000);
+            ck.floor("clean_documents_unchanged", "with_table", 300);
+            ck.floor("clean_documents_unchanged", "with_reply_fallback_kept", 300);
+            ck.floor("clean_documents_unchanged", "deep_but_within_limit", 100);
+            ck.floor("deprecated_rewritten", "deprecated_document", 2000);
+        }
+        _ => {
+            eprintln!("vf-html: unknown property {id}");
+            std::process::exit(2);
+        }
+    }
+    ck.finish()
+}
